@@ -1328,15 +1328,19 @@ def obligations(tier, seed):
     # ---- hastings
     for d in (1, 2, 3):
         for rank in ranks:
-            for steps in ((1, 2, 3) if thorough or d <= 2 else (2,)):
-                add("C16.hastings[d=%d,steps=%d,%s]" % (d, steps, rank), "V", "scn_hastings", (d, _split(d), rank, steps, [None]),
-                    "Hastings term = kinetic energy change", d)
+            for steps in ((1, 2, 3) if (thorough or d <= 2) and not (rank == "dense" and d == 3 and not thorough) else (1,)):
+                for warm in (False, True):
+                    add("C16.hastings[d=%d,steps=%d,%s,%s]" % (d, steps, rank, "warm" if warm else "cold"), "V", "scn_hastings",
+                        (d, _split(d), rank, steps, [None], "real", "inverse", warm), "Hastings term = kinetic energy change", d)
+    # default divergence threshold (1000): the print-only diagnostic forks on the symbolic energy error; both paths proved
+    for rank in ranks:
+        add("C16.hastings[d=2,steps=1,%s,threshold=default]" % rank, "V", "scn_hastings",
+            (2, (1, 1), rank, 1, [None], "real", "inverse", False, "real", "default"), "Hastings term = kinetic energy change", 2)
     for d in range(1, D_MAX + 1):
         for rank in ranks:
-            if rank == "dense" and d > 4:
-                continue
-            add("C16.hastings.modular[d=%d,%s]" % (d, rank), "U", "scn_hastings", (d, _split(d), rank, 0, [None], "contract"),
-                "Hastings term = kinetic energy change", d)
+            inv = "stub" if (rank == "dense" and d > 3) else "real"
+            add("C16.hastings.modular[d=%d,%s%s]" % (d, rank, ",inverse=contract" if inv == "stub" else ""), "U", "scn_hastings",
+                (d, _split(d), rank, 0, [None], "contract", "inverse", False, inv), "Hastings term = kinetic energy change", d)
     # failure points: every model call (0..steps+2) and every backward (0..steps) of a trial
     for rank in ranks:
         for steps in ((1, 2) if thorough else (2,)):
